@@ -69,7 +69,8 @@ func (c *FrameCodec) Decode(src *sonic.ByteBuffer) (Frame, error) {
 	c.decodeFrame = src.Data()[:readSoFar]
 
 	payloadLength := c.decodeFrame.PayloadLength()
-	if payloadLength > c.maxMessageSize {
+	// A 64-bit length with the most significant bit set (illegal per RFC 6455) becomes a negative int.
+	if payloadLength < 0 || payloadLength > c.maxMessageSize {
 		c.decodeFrame = nil
 		return nil, ErrPayloadOverMaxSize
 	}
